@@ -20,7 +20,7 @@ from ..oracles import cf_fscm as S
 from . import c18 as C18
 
 PROP = "C07"
-RULE = ("(12%: structured 'districts' inputs -- a district {a, b} with a <-> b AND a -> b next to other districts, both a and b in the event) random ADMGs with 1-5 nodes x conjunctions of 1-4 counterfactual events over <=3 counterfactual worlds plus the "
+RULE = ("(10%: three structured streams on graphs with edges, conjuncts in shuffled (non-canonical) order -- 'worlds3': events that USE three counterfactual worlds; 'twins': two or three base variables each observed in a world w and factually / in a second world (two worlds sharing >= 2 base variables); 'refusal': bow / cf-twin / subscript-against-subscript events inside one district (lines 7-8 of ID*); most edgeless random graphs are re-drawn; 12%: structured 'districts' inputs -- a district {a, b} with a <-> b AND a -> b next to other districts, both a and b in the event) random ADMGs with 1-5 nodes x conjunctions of 1-4 counterfactual events over <=3 counterfactual worlds plus the "
         "factual world (shared/distinct subscripts, x / x' values, self-interventions, repeated variables); the paper "
         "examples (Shpitser-Pearl fig. 9, Tikka) and all past witnesses first; a small malformed stream. Every case is run "
         "under every iteration order of the worlds and both orders of district nodes. A case is non-trivial when the event "
@@ -141,6 +141,105 @@ def _gen_districts(rng: random.Random):
     return g, K.sort_event(ev)
 
 
+def _ladder(rng: random.Random, n, p_di=0.25, p_bi=0.15):
+    """acyclic ADMG along a shuffled order, consecutive nodes mostly joined by a directed edge: never edgeless"""
+    order = list(range(n))
+    rng.shuffle(order)
+    di = [[order[i], order[i + 1]] for i in range(n - 1) if rng.random() < 0.8]
+    for i in range(n):
+        for j in range(i + 2, n):
+            if rng.random() < p_di:
+                di.append([order[i], order[j]])
+    bi = [[order[i], order[j]] for i in range(n) for j in range(i + 1, n) if rng.random() < p_bi]
+    return {"nodes": sorted(order), "di": di, "bi": bi}, order
+
+
+def _gen_worlds3(rng: random.Random, tier):
+    """structured: events that USE THREE counterfactual worlds (at least one conjunct per world, optionally a factual one) on a graph
+    with edges; the worlds share variables with other values half of the time; conjuncts listed in a shuffled (non-canonical) order"""
+    n = rng.choice([3, 4, 4, 5] if tier == "quick" else [3, 4, 4, 5, 5, 6])
+    g, order = _ladder(rng, n)
+    star = lambda p_=0.35: "p" if rng.random() < p_ else "m"    # noqa: E731
+    worlds = []
+    while len(worlds) < 3:
+        if worlds and rng.random() < 0.5:
+            w0 = rng.choice(worlds)
+            w = tuple((x, star(0.5)) for x, _ in w0)
+        else:
+            w = tuple(sorted((x, star()) for x in rng.sample(order, rng.choice([1, 1, 2]))))
+        if w not in worlds:
+            worlds.append(w)
+    ev = {}
+    for w in worlds + ([()] if rng.random() < 0.5 else []):
+        cand = [v_ for v_ in order if v_ not in {x for x, _ in w}] or order
+        var = K.mkvar(rng.choice(cand), w)
+        ev[C.enc(var)] = [var, star()]
+    ev = list(ev.values())
+    rng.shuffle(ev)
+    return g, ev
+
+
+def _gen_twins(rng: random.Random):
+    """structured: 'twin' events -- a world w and two or three base variables B, each observed in w AND factually / in a second world
+    w' ({Y_x, Z_x, Y, Z}): two worlds share >= 2 base variables, the counterfactual-counterfactual merge loop and line 6 with several
+    copies per district are exercised; values equal or different; shuffled order"""
+    n = rng.choice([3, 4, 4, 5])
+    g, order = _ladder(rng, n, p_bi=0.2)
+    star = lambda p_=0.35: "p" if rng.random() < p_ else "m"    # noqa: E731
+    xs = rng.sample(order[:-1], rng.choice([1, 1, 2]) if n > 3 else 1)
+    w = tuple(sorted((x, star()) for x in xs))
+    free = [v_ for v_ in order if v_ not in xs]
+    bases = rng.sample(free, min(len(free), rng.choice([2, 2, 3])))
+    w2 = () if rng.random() < 0.6 else tuple((x, "p" if s_ == "m" else "m") for x, s_ in w)
+    ev = {}
+    for b in bases:
+        a = star()
+        for ww, val in ((w, a), (w2, a if rng.random() < 0.6 else ("p" if a == "m" else "m"))):
+            var = K.mkvar(b, ww)
+            ev[C.enc(var)] = [var, val]
+    ev = list(ev.values())
+    rng.shuffle(ev)
+    return g, ev
+
+
+def _gen_refusal(rng: random.Random):
+    """structured: events that reach lines 7-8 of ID* (a single-district counterfactual graph whose subscripts contradict the values
+    / subscripts of the event): the bow {Y_x = y, X = x'}, cf twins {Y_x = y, Y_{x,w} = y'}, a subscript against a subscript
+    {Y_x, Z_{x'}} inside one district, on bows / hedges / bidirected chains of 3-4 nodes"""
+    n = rng.choice([2, 3, 3, 4])
+    order = list(range(n))
+    rng.shuffle(order)
+    x, y = order[0], order[1]
+    di, bi = [[x, y]], [[x, y]]
+    for i, v_ in enumerate(order[2:]):
+        prev = order[i + 1]
+        bi.append([prev, v_]) if rng.random() < 0.7 else None     # bidirected chain: one district
+        if rng.random() < 0.5:
+            di.append([rng.choice(order[:i + 2]), v_])
+    g = {"nodes": sorted(order), "di": di, "bi": [e for e in bi if e]}
+    s_ = "p" if rng.random() < 0.5 else "m"
+    o = "p" if s_ == "m" else "m"
+    val = lambda: "m" if rng.random() < 0.6 else "p"    # noqa: E731
+    kind = rng.choice(["bow", "bow", "twins", "subsub"])
+    if kind == "bow":
+        ev = [[K.mkvar(y, ((x, s_),)), val()], [K.mkvar(x), o]]
+    elif kind == "twins" and n >= 3:
+        w_ = order[2]
+        ev = [[K.mkvar(y, ((x, s_),)), "m"], [K.mkvar(y, tuple(sorted(((x, s_ if rng.random() < 0.5 else o), (w_, val()))))), "p"]]
+    else:
+        z = order[2] if n >= 3 else y
+        ev = [[K.mkvar(y, ((x, s_),)), val()], [K.mkvar(z, ((x, o),)), val()]] if z != y else \
+            [[K.mkvar(y, ((x, s_),)), "m"], [K.mkvar(y, ((x, o),)), "p"]]
+    if n >= 3 and rng.random() < 0.4:
+        ev.append([K.mkvar(order[-1]), val()])
+    seen = {}
+    for var, v2 in ev:
+        seen.setdefault(C.enc(var), [var, v2])
+    ev = list(seen.values())
+    rng.shuffle(ev)
+    return g, ev
+
+
 def cases(rng: random.Random, tier: str):
     out = [dict(c, seed=2000 + i) for i, c in enumerate(CORPUS)]
     out += K.load_corpus("C07")
@@ -151,7 +250,15 @@ def cases(rng: random.Random, tier: str):
             g, ev = _gen_districts(rng)
             out.append({"g": g, "event": ev, "seed": rng.randrange(1 << 30), "gen": "districts"})
             continue
+        r_ = rng.random()
+        if r_ < 0.10:
+            gen, (g, ev) = ("worlds3", _gen_worlds3(rng, tier)) if r_ < 0.035 else \
+                ("twins", _gen_twins(rng)) if r_ < 0.07 else ("refusal", _gen_refusal(rng))
+            out.append({"g": g, "event": ev, "seed": rng.randrange(1 << 30), "gen": gen})
+            continue
         g = K.rand_admg(rng, 1, 5 if big else 4)
+        if not g["di"] and not g["bi"] and rng.random() < 0.6:
+            g = K.rand_admg(rng, 2, 5 if big else 4)     # a third of the random graphs had no edge at all: re-draw most of them
         ev = K.rand_event(rng, g, max_worlds=3 if rng.random() < 0.3 else 2, max_items=4 if big else 3)
         c = {"g": g, "event": ev, "seed": rng.randrange(1 << 30)}
         if rng.random() < 0.015 and g["di"]:
